@@ -62,6 +62,14 @@ func (prop) Cases(tier string, seed uint64) []core.Case {
 	for i := 0; i < n; i++ {
 		cs = append(cs, core.Case{ID: fmt.Sprintf("hist-%d", i), Kind: "history", Seed: seed*1409 + uint64(i), N: 1, Params: map[string]interface{}{"crash": i%4 == 0}})
 	}
+	// catalogues larger than one listing page of the store (100)
+	np := 2
+	if tier == "thorough" {
+		np = 12
+	}
+	for i := 0; i < np; i++ {
+		cs = append(cs, core.Case{ID: fmt.Sprintf("many-%d", i), Kind: "many", Seed: seed*1423 + uint64(i), N: 1})
+	}
 	return cs
 }
 
@@ -278,7 +286,7 @@ func (d *daemon) do(method, path string, body interface{}) (int, []byte) {
 
 func (d *daemon) catalogue() (catalogue, error) {
 	c := catalogue{Tasks: map[string]taskView{}, Templates: map[string]string{}, Assoc: map[string]bool{}}
-	code, body := d.do("GET", "/tasks?script-format=raw&limit=1000", nil)
+	code, body := d.do("GET", "/tasks?script-format=raw&limit=100000", nil)
 	if code != 200 {
 		return c, fmt.Errorf("GET /tasks: %d %s", code, body)
 	}
@@ -685,7 +693,77 @@ func canonVarsOf(k varsKind) string {
 
 // ---- run ------------------------------------------------------------------------------------
 
+// runMany: 101-260 tasks (more than one page of 100), a third enabled, then clean restarts: the
+// listing must be complete and every enabled task must execute again.
+func runMany(x *core.Ctx) {
+	r := core.NewRng(x.Case.Seed, 41)
+	scratch, err := os.MkdirTemp(x.Scratch, "c14m")
+	if err != nil {
+		x.Inconclusive(err.Error())
+		return
+	}
+	defer os.RemoveAll(scratch)
+	n := r.Range(101, 260)
+	sub := fmt.Sprintf("catalogue of %d tasks, restart", n)
+	if !x.Announce(sub) {
+		return
+	}
+	x.Count("evaluations", 1)
+	dbPath := filepath.Join(scratch, "kapacitor.db")
+	var cur int32
+	d, err := openDaemon(dbPath, "", &cur)
+	if err != nil {
+		x.Inconclusive(err.Error())
+		return
+	}
+	defer func() { d.close() }()
+	enabled := map[string]bool{}
+	for i := 0; i < n; i++ {
+		id := fmt.Sprintf("%s%03d", r.Pick([]string{"a", "m", "z"}), i)
+		status := "disabled"
+		if r.Chance(0.35) || i == n-1 {
+			status = "enabled"
+		}
+		code, body := d.do("POST", "/tasks", map[string]interface{}{"id": id, "type": "stream", "script": scripts["S1"].text, "status": status, "dbrps": []map[string]string{{"db": "db1", "rp": "rp1"}}})
+		if code != 200 {
+			x.Violatef("valid-request-rejected", "a valid request was rejected: create task", sub, "create %s -> %d %s", id, code, body)
+			return
+		}
+		enabled[id] = status == "enabled"
+	}
+	for round := 0; round < 2; round++ {
+		d.close()
+		d, err = openDaemon(dbPath, "", &cur)
+		if err != nil {
+			x.Violatef("restart-failed", "the daemon does not come up on its own storage file", sub, "%v", err)
+			return
+		}
+		c, err := d.catalogue()
+		if err != nil {
+			x.Violatef("api-error", "listing failed after restart", sub, "%v", err)
+			return
+		}
+		if len(c.Tasks) != n {
+			x.Violatef("catalogue-after-restart", "after a clean restart the catalogue / running state differs: tasks missing from a large catalogue", sub, "%d of %d tasks listed", len(c.Tasks), n)
+			return
+		}
+		for id, en := range enabled {
+			t := c.Tasks[id]
+			x.Count("executing_flags_checked", 1)
+			if (t.Status == "enabled") != en || t.Executing != en || d.tm.IsExecuting(id) != en {
+				x.Violatef("enabled-not-executing", "an enabled task whose start succeeds is not executing (after restart)", sub, "task %q of %d after restart %d: status %s executing=%v (task master %v), expected enabled=%v", id, n, round+1, t.Status, t.Executing, d.tm.IsExecuting(id), en)
+				return
+			}
+		}
+	}
+	x.Nontrivial(fmt.Sprintf("many|%d", n/40))
+}
+
 func (prop) Run(x *core.Ctx) {
+	if x.Case.Kind == "many" {
+		runMany(x)
+		return
+	}
 	r := core.NewRng(x.Case.Seed, 14)
 	scratch, err := os.MkdirTemp(x.Scratch, "c14")
 	if err != nil {
